@@ -604,7 +604,13 @@ static size_t Slice_Len(var self) {
 
 static var Slice_Get(var self, var key) {
   struct Slice* s = self;
-  return get(s->iter, Range_Get(s->range, key));
+  struct Range* r = s->range;
+  struct Int* p = r->value;
+  /* The Range cursor holds the position of an iteration in progress: keep it */
+  int64_t pos = p->val;
+  int64_t idx = c_int(Range_Get(r, key));
+  p->val = pos;
+  return get(s->iter, $I(idx));
 }
 
 static bool Slice_Mem(var self, var key) {
